@@ -85,6 +85,13 @@ def observe(case):
     j = case["col"] % len(cols)
     i = case["at"] % len(t)
     x = _val(WRITES[case["write"]], j)
+    # rows the program HOLDS across the write (taken by position and kept from an iteration): whatever they show afterwards,
+    # what they report about themselves must admit it - they are used as operands after the write
+    held = []
+    try:
+        held = [t[i], t[0], t[-1]] + [r for k, r in enumerate(t) if k == i][:1]
+    except Exception:                                        # noqa: BLE001
+        pass
     try:
         if case["via"] == "view":
             t.cols()[j][i] = x
@@ -98,6 +105,15 @@ def observe(case):
             setattr(t, cols[j][0], cur)
     except Exception:                                        # noqa: BLE001  an incompatible value is refused: fine
         pass
+    from harness.props import c03
+    for r in held:
+        c03.check_held(r, "a row view taken before the write, looked at after it")
+        for use in (lambda r: r.schema(), lambda r: list(r), lambda r: r.T, lambda r: r.copy(), lambda r: r[0:2], lambda r: r.isna(),
+                    lambda r: r.to_object(), lambda r: r.fillna(0)):
+            try:
+                use(r)
+            except Exception:                                # noqa: BLE001
+                pass
     for p in case["after"]:
         try:
             _probe(t, p)
